@@ -712,6 +712,11 @@ class Fold:
             return Matrix([1 if short[-1] == c else 0 for c in "XYZ"])
         # opaque
         name = short
+        if short == "lpNorm":
+            mt = re.search(r"<(-?\w+)>$", n.get("callee_targs") or "")
+            if mt and mt.group(1) == "1" and obj is not None and not args:
+                return F("sum")(F("cwiseAbs")(self.scalarize(obj)))       # the L1 norm
+            name = short + ("<%s>" % mt.group(1) if mt else "<?>")
         parts = []
         if obj is not None:
             parts.append(self.scalarize(obj))
@@ -788,7 +793,13 @@ class Fold:
                 idx = [self.ev(a, env) for a in an]
             except Terminated:
                 idx = None
-        self.event({"kind": "store", "target": show(lhs), "target_node": lhs, "value": val, "node": node, "idx": idx}, env)
+        tval = None
+        if k == "mcall" and lhs.get("obj") is not None:
+            try:
+                tval = "%s.%s()" % (self.scalarize(self.ev(lhs["obj"], env)), (lhs.get("callee") or "").split("::")[-1])
+            except Terminated:
+                tval = None
+        self.event({"kind": "store", "target": show(lhs), "target_node": lhs, "value": val, "node": node, "idx": idx, "target_val": tval}, env)
         # component store into a local 3-vector
         if k in ("mcall", "opcall"):
             base = unwrap(lhs.get("obj") if k == "mcall" else lhs["args"][0])
